@@ -128,6 +128,9 @@ def build_source(case):
         args.append('start=%d size=%d orphan=0' % tuple(opts['batch']))
     o, c = open_close(sx, 'in', ' '.join(args))
     parts = ['⟪']
+    if elk in ('obj', 'map', 'pair-obj'):
+        # a second grouping variable, asked before and after the first one
+        parts.append('⟦first-k=%s⟧' % boolean(sx, 'first-k'))
     for n in VALUED:
         parts.append('⟦%s=%s⟧' % (n, var(sx, 'sequence-' + n)))
     for n in BOOLS:
@@ -142,6 +145,8 @@ def build_source(case):
         parts.append('⟦var-x=%s⟧' % var(sx, 'sequence-var-' + an))
         parts.append('⟦first-x=%s⟧' % boolean(sx, 'first-' + an))
         parts.append('⟦last-x=%s⟧' % boolean(sx, 'last-' + an))
+        parts.append('⟦last-k=%s⟧' % boolean(sx, 'last-k'))
+        parts.append('⟦first-x2=%s⟧' % boolean(sx, 'first-' + an))
         parts.append('⟦x=%s⟧' % var(sx, 'x', '∅'))
     p = opts.get('prefix')
     if p:
@@ -274,6 +279,9 @@ def expected(case):
             row['var-x'] = shown(sv.get('sequence-var-' + an))
             row['first-x'] = '1' if sv.get('first-' + an) else '0'
             row['last-x'] = '1' if sv.get('last-' + an) else '0'
+            row['first-k'] = '1' if sv.get('first-k') else '0'
+            row['last-k'] = '1' if sv.get('last-k') else '0'
+            row['first-x2'] = row['first-x']
             e = sv.element(i)
             row['x'] = 'OUTERX' if opts.get('no_push_item') else shown(
                 e['x'] if isinstance(e, dict) else e.x)
